@@ -2,22 +2,32 @@ package checks
 
 import (
 	"math/rand"
+	"os"
 
 	"verif/harness/core"
 	"verif/harness/gen"
 )
 
 func init() {
-	Registry["C01"] = func(tier, replay string) int { return runTranslation("C01", target{Name: "spv"}, tier) }
-	Registry["C03"] = func(tier, replay string) int { return runTranslation("C03", target{Name: "hlsl"}, tier) }
-	Registry["C04"] = func(tier, replay string) int { return runTranslation("C04", target{Name: "msl"}, tier) }
-	Registry["C05"] = func(tier, replay string) int {
-		return runTranslation("C05", target{Name: "glsl", undefinedIsSkip: true}, tier)
+	reg := func(prop string, t target) {
+		Registry[prop] = func(tier, replay string) int {
+			if replay != "" {
+				return replayTranslation(prop, t, tier, replay)
+			}
+			return runTranslation(prop, t, tier)
+		}
 	}
+	reg("C01", target{Name: "spv"})
+	reg("C03", target{Name: "hlsl"})
+	reg("C04", target{Name: "msl"})
+	reg("C05", target{Name: "glsl", undefinedIsSkip: true})
 }
 
 // semanticFamilies builds the program families of DESIGN.md 5.1 for this tier and seed.
-func semanticFamilies(c *core.Ctx) []*SemCase {
+func semanticFamilies(c *core.Ctx) []*SemCase { return semanticFamiliesFor(c, "") }
+
+// semanticFamiliesFor: as semanticFamilies; for backend "glsl" the random programs stay inside the operations GLSL defines.
+func semanticFamiliesFor(c *core.Ctx, backend string) []*SemCase {
 	rng := rand.New(rand.NewSource(c.Seed))
 	limit := c.Pick(24, 0)
 	var gs []gen.Case
@@ -25,6 +35,14 @@ func semanticFamilies(c *core.Ctx) []*SemCase {
 	gs = append(gs, gen.UnOpsConv(rng, limit)...)
 	gs = append(gs, gen.Builtins(rng, limit)...)
 	gs = append(gs, gen.MatOps(rng, c.Pick(6, 24))...)
+	gs = append(gs, gen.ZeroInit()...)
+	gs = append(gs, gen.LetCopy()...)
+	gs = append(gs, gen.ContinuingOps()...)
+	gs = append(gs, gen.CasgOrder()...)
+	// random structured programs (own generator state, so that the table families above do not depend on their number)
+	if randFamilyOn(backend) {
+		gs = append(gs, gen.RandProgramsFor(rand.New(rand.NewSource(c.Seed*7919+13)), c.Pick(60, 1200), c.Pick(6, 10), backend == "glsl")...)
+	}
 	var out []*SemCase
 	for _, g := range gs {
 		out = append(out, &SemCase{Family: g.Family, Desc: g.Desc, Prog: g.Prog, Inputs: g.Inputs})
@@ -75,7 +93,18 @@ func runTranslation(prop string, t target, tier string) int {
 	} else {
 		c.Cov["f32_selftest_rows"] = n
 	}
-	cases := semanticFamilies(c)
+	cases := semanticFamiliesFor(c, t.Name)
+	onlyFam := os.Getenv("VERIF_FAMILY") // development aid: restrict to one family (evidence then says so)
+	if onlyFam != "" {
+		var keep []*SemCase
+		for _, cs := range cases {
+			if cs.Family == onlyFam {
+				keep = append(keep, cs)
+			}
+		}
+		cases = keep
+		c.Assumef("restricted to family %q by VERIF_FAMILY (development run)", onlyFam)
+	}
 	if err := EvalSpec(c, cases, core.Cores()); err != nil {
 		c.BrokenF("specification evaluation failed: %v", err)
 		return c.Finish()
@@ -83,7 +112,8 @@ func runTranslation(prop string, t target, tier string) int {
 	// control-flow skeletons: enumerated and evaluated by TLC (CtlGen.tla)
 	var ctl []*SemCase
 	var err error
-	if c.Quick() {
+	if onlyFam != "" && onlyFam != "ctl" {
+	} else if c.Quick() {
 		ctl, err = ctlCases(c, 3, 16, []int{int(c.Seed) % 16, int(c.Seed+5) % 16, int(c.Seed+11) % 16})
 	} else {
 		all := make([]int, 16)
@@ -116,4 +146,17 @@ func runTranslation(prop string, t target, tier string) int {
 		c.BrokenF("only %d of %d rows could be judged (executor or front end rejects too much)", st.Compared, st.Rows)
 	}
 	return c.Finish()
+}
+
+// randFamilyOn: the random family is switched on per backend once its disagreements on the unchanged tree have been
+// triaged (VERIF_RAND=1 forces it on for development runs).
+func randFamilyOn(backend string) bool {
+	if os.Getenv("VERIF_RAND") == "1" {
+		return true
+	}
+	switch backend {
+	case "":
+		return false
+	}
+	return false
 }
